@@ -257,6 +257,60 @@ func genC12Codecs(g *Gen) error {
 			return err
 		}
 	}
+	// the query message itself: RemoteQuery.Marshal / Unmarshal with their MstInfos helpers
+	{
+		rel := edir + "rpc_message.go"
+		fields, err := g.c12StructFields(rel, "RemoteQuery")
+		if err != nil {
+			return err
+		}
+		var enc, dec, wireW, wireR []string
+		for _, fn := range []string{"RemoteQuery.Marshal", "RemoteQuery.MarshalMstInfos"} {
+			fd, err := g.Func(rel, fn)
+			if err != nil {
+				return err
+			}
+			enc = append(enc, c12Selectors(fd.Body, c12RecvName(fd), false)...)
+			wireW = append(wireW, g.c12LiteralKeys(fd.Body, "RemoteQuery")...)
+			wireW = append(wireW, c12Assigned(fd.Body, "rq")...)
+		}
+		for _, fn := range []string{"RemoteQuery.Unmarshal", "RemoteQuery.UnmarshalMstInfos"} {
+			fd, err := g.Func(rel, fn)
+			if err != nil {
+				return err
+			}
+			dec = append(dec, c12Assigned(fd.Body, c12RecvName(fd))...)
+			// a field may be filled through a method on it (c.Opt.UnmarshalBinary(…))
+			ast.Inspect(fd.Body, func(n ast.Node) bool {
+				if ce, ok := n.(*ast.CallExpr); ok {
+					if se, ok := ce.Fun.(*ast.SelectorExpr); ok && se.Sel.Name == "UnmarshalBinary" {
+						if inner, ok := se.X.(*ast.SelectorExpr); ok {
+							if id, ok := inner.X.(*ast.Ident); ok && id.Name == c12RecvName(fd) {
+								dec = append(dec, inner.Sel.Name)
+							}
+						}
+					}
+				}
+				return true
+			})
+			wireR = append(wireR, c12Selectors(fd.Body, "pb", true)...)
+		}
+		isField := map[string]bool{}
+		for _, f := range fields {
+			isField[f] = true
+		}
+		var enc2 []string
+		for _, e := range c12UniqSorted(enc) {
+			if isField[e] {
+				enc2 = append(enc2, e)
+			}
+		}
+		g.StrList("cov_remoteQuery_fields", fields)
+		g.StrList("cov_remoteQuery_encoded", enc2)
+		g.StrList("cov_remoteQuery_decoded", c12UniqSorted(dec))
+		g.StrList("cov_remoteQuery_wireWritten", c12UniqSorted(wireW))
+		g.StrList("cov_remoteQuery_wireRead", c12UniqSorted(wireR))
+	}
 	// query schema message: what EncodeQuerySchema writes and DecodeQuerySchema reads
 	fe, err := g.Func(qdir+"processor_codec.go", "EncodeQuerySchema")
 	if err != nil {
